@@ -10,7 +10,7 @@
 From Coq Require Import List Bool Arith Ascii String NArith Permutation Sorted.
 From UV.Base Require Import Order SortUniq Res.
 From UV.Py Require Import PyStr.
-From UV.Schemes Require Import Common Generic LegacyOpenssl Gentoo GentooProofs Debian DebianProofs Semver SemverProofs.
+From UV.Schemes Require Import Common Generic LegacyOpenssl Gentoo GentooProofs Debian DebianProofs Semver SemverProofs Gem GemProofs.
 Import ListNotations.
 
 (* the laws, for any comparison that is a total preorder: < is cmp = Lt, > is cmp = Gt *)
@@ -77,6 +77,10 @@ Theorem C01_semver_family :
   forall a b, sv_ok a = true -> sv_ok b = true -> semver_ops a b = ops_of (semver_cmp a b).
 Proof. split; [exact semver_tpo|exact semver_ops_spec]. Qed.
 
+Theorem C01_gem :
+  TPO gem_order /\ forall a b, gem_cmp a b = gem_order a b /\ gem_ops a b = ops_of (gem_order a b).
+Proof. split; [exact gem_tpo|]. intros a b. split; [apply gem_cmp_order|apply gem_ops_spec]. Qed.
+
 (* Non-vacuity: accepted versions have the shape the theorems need, and the orders are not trivial *)
 Example C01_nonvacuous :
   gok (list_ascii_of_string "1.02_alpha1_p-r3") = true /\
@@ -96,3 +100,4 @@ Print Assumptions C01_legacy_openssl.
 Print Assumptions C01_gentoo_alpine.
 Print Assumptions C01_deb.
 Print Assumptions C01_semver_family.
+Print Assumptions C01_gem.
